@@ -114,6 +114,10 @@ class ScenarioHang(BaseException):
 
 
 def _on_alarm(signum, frame):
+    try:
+        faulthandler.dump_traceback(all_threads=True)  # which simulated thread holds the baton, and where
+    except Exception:
+        pass
     raise ScenarioHang(f"scenario exceeded {SCENARIO_WALL_S}s of real time (no simulated budget stopped it)")
 
 
@@ -242,12 +246,13 @@ def shrink(prop, sc, target, budget=250, wall=90):
             if ok(cand):
                 cur = cand
     sched = cur.get("sched") or {}
-    if sched.get("preempt"):
-        for i in range(len(sched["preempt"]) - 1, -1, -1):
-            cand = copy.deepcopy(cur)
-            del cand["sched"]["preempt"][i]
-            if ok(cand):
-                cur = cand
+    for pk in ("preempt", "preempt_lines"):
+        if sched.get(pk):
+            for i in range(len(sched[pk]) - 1, -1, -1):
+                cand = copy.deepcopy(cur)
+                del cand["sched"][pk][i]
+                if ok(cand):
+                    cur = cand
     for k in ("late", "noise"):
         if (cur.get("sched") or {}).get(k):
             cand = copy.deepcopy(cur)
